@@ -550,7 +550,7 @@ func (f *Formatter) renderOpenTag(n *html.Node) string {
 		buf.WriteString(attr.Key)
 		if attr.Val != "" {
 			buf.WriteString("=\"")
-			buf.WriteString(helpers.FormatAttr(attr.Val))
+			buf.WriteString(strings.ReplaceAll(helpers.FormatAttr(attr.Val), "\"", "&quot;"))
 			buf.WriteString("\"")
 		}
 	}
